@@ -100,11 +100,27 @@ def mub43():
     return np.eye(4) / 4, pred
 
 
+def nl_chsh(r):
+    """The ordinary CHSH game as an extended game: V(a,b|x,y) = [a xor b == x and y] * I_r (referee system idle)."""
+
+    def build():
+        pred = np.zeros((r, r, 2, 2, 2, 2))
+        for a, b, x, y in itertools.product(range(2), repeat=4):
+            if (a ^ b) == (x & y):
+                pred[:, :, a, b, x, y] = np.eye(r)
+        return np.full((2, 2), 0.25), pred
+
+    return build
+
+
+_C8 = float(np.cos(np.pi / 8) ** 2)
 NAMED = {
-    # name: (builder, {value name: closed form})
-    "bb84": (bb84, {"unent": np.cos(np.pi / 8) ** 2, "npa1": np.cos(np.pi / 8) ** 2, "ns": np.cos(np.pi / 8) ** 2}),
-    "chsh": (chsh_ext, {"unent": 0.75, "npa2": 0.75}),
-    "mub": (mub43, {"unent": (3 + np.sqrt(5)) / 8}),
+    # name: (builder, {value name: closed form})   npa1 = level-1 NPA value, ns = non-signalling value
+    "bb84": (bb84, {"unent": _C8, "npa1": _C8, "ns": _C8}),
+    "chsh": (chsh_ext, {"unent": 0.75, "npa1": 0.75, "ns": 0.75}),
+    "mub": (mub43, {"unent": float((3 + np.sqrt(5)) / 8)}),
+    "nlchsh1": (nl_chsh(1), {"unent": 0.75, "npa1": _C8, "ns": 1.0}),
+    "nlchsh2": (nl_chsh(2), {"unent": 0.75, "npa1": _C8, "ns": 1.0}),
 }
 
 
@@ -402,7 +418,6 @@ def sdp_interval(q, n, keep, d=2):
     nk = len(keep)
     dk = d**nk
     order = _embed_perm(n, keep)
-    inv = ref.inverse_perm(order)
     # work in the order (rest, keep):  Q' = P Q P^T
     qp = ref.permute(q, order, [d] * n, [d] * n)
     dr = dim // dk
@@ -430,7 +445,6 @@ def sdp_interval(q, n, keep, d=2):
     ub = float(np.real(np.trace(yv))) + shift * dk
     if ub < lb - 1e-7 or ub - lb > 1e-4 * max(1.0, abs(ub)):
         raise Inconclusive("oracle_interval_wide")
-    _ = inv
     return lb, ub
 
 
